@@ -7,12 +7,15 @@ package sched
 import (
 	"bytes"
 	"fmt"
+	"regexp"
 	"runtime"
 	"sort"
 	"strconv"
 	"strings"
 	"sync"
 	"time"
+
+	"verifharness/common"
 )
 
 func gid() uint64 {
@@ -190,8 +193,13 @@ func (c *Ctl) Run(choices []int, prefer func(step int, parked map[string]string)
 }
 
 // Finish switches to pass-through mode, releases everyone and waits for all
-// workers; it returns the names of workers that did not finish within d,
-// together with a dump of all goroutine stacks.
+// workers. It returns the workers that are provably blocked, with a dump of
+// all goroutine stacks: a worker counts as blocked only if, in two dumps taken
+// d apart, its goroutine is parked (chan receive/send, select, semacquire,
+// sync.Cond.Wait, sync.Mutex.Lock) - a runnable or running goroutine on a busy
+// machine is merely slow and is waited for. If workers are still unfinished
+// but not provably blocked after a generous cap the case is inconclusive
+// (reported through the inconclusive callback), never a verdict.
 func (c *Ctl) Finish(d time.Duration) ([]string, string) {
 	c.mu.Lock()
 	c.free = true
@@ -200,7 +208,9 @@ func (c *Ctl) Finish(d time.Duration) ([]string, string) {
 		delete(c.parked, n)
 	}
 	c.mu.Unlock()
-	deadline := time.Now().Add(d)
+	start := time.Now()
+	next := start.Add(d)
+	var prevBlocked map[string]string
 	for {
 		c.mu.Lock()
 		n := len(c.running)
@@ -208,20 +218,110 @@ func (c *Ctl) Finish(d time.Duration) ([]string, string) {
 		if n == 0 {
 			return nil, ""
 		}
-		if time.Now().After(deadline) {
-			break
+		if time.Now().Before(next) {
+			time.Sleep(200 * time.Microsecond)
+			continue
 		}
-		time.Sleep(200 * time.Microsecond)
+		next = time.Now().Add(d)
+		buf := make([]byte, 4<<20)
+		dump := string(buf[:runtime.Stack(buf, true)])
+		blocked := c.blockedWorkers(dump)
+		c.mu.Lock()
+		allBlocked := len(blocked) == len(c.running) && len(blocked) > 0
+		c.mu.Unlock()
+		if allBlocked && prevBlocked != nil {
+			same := true
+			for w, st := range blocked {
+				if prevBlocked[w] != st {
+					same = false
+				}
+			}
+			if same {
+				var stuck []string
+				for w := range blocked {
+					stuck = append(stuck, w)
+				}
+				sort.Strings(stuck)
+				return stuck, dump
+			}
+		}
+		if allBlocked {
+			prevBlocked = blocked
+		} else {
+			prevBlocked = nil
+		}
+		if time.Since(start) > 40*d+2*time.Minute {
+			common.Inconclusive("workers still unfinished after %v but not provably blocked (machine too busy?)", time.Since(start))
+		}
+	}
+}
+
+// WorkerStacks returns, from a full dump, the stacks of the named workers' own goroutines.
+func (c *Ctl) WorkerStacks(dump string, workers []string) string {
+	want := map[string]bool{}
+	for _, w := range workers {
+		want[w] = true
 	}
 	c.mu.Lock()
-	var stuck []string
-	for n := range c.running {
-		stuck = append(stuck, n)
+	gids := map[uint64]string{}
+	for g, w := range c.byGid {
+		if want[w] {
+			gids[g] = w
+		}
 	}
 	c.mu.Unlock()
-	sort.Strings(stuck)
-	buf := make([]byte, 1<<20)
-	return stuck, string(buf[:runtime.Stack(buf, true)])
+	var out []string
+	for _, g := range strings.Split(dump, "\n\n") {
+		m := reGoroutine.FindStringSubmatch(g)
+		if m == nil {
+			continue
+		}
+		id, _ := strconv.ParseUint(m[1], 10, 64)
+		if w, ok := gids[id]; ok {
+			if len(g) > 2000 {
+				g = g[:2000]
+			}
+			out = append(out, "worker "+w+": "+g)
+		}
+	}
+	return strings.Join(out, "\n\n")
+}
+
+var reGoroutine = regexp.MustCompile(`^goroutine (\d+) \[([^\],]+)`)
+
+// blockedWorkers maps each still-running worker whose goroutine is parked to
+// "state@top-frame".
+func (c *Ctl) blockedWorkers(dump string) map[string]string {
+	c.mu.Lock()
+	gids := map[uint64]string{}
+	for g, w := range c.byGid {
+		if c.running[w] {
+			gids[g] = w
+		}
+	}
+	c.mu.Unlock()
+	out := map[string]string{}
+	for _, g := range strings.Split(dump, "\n\n") {
+		m := reGoroutine.FindStringSubmatch(g)
+		if m == nil {
+			continue
+		}
+		id, _ := strconv.ParseUint(m[1], 10, 64)
+		w, ok := gids[id]
+		if !ok {
+			continue
+		}
+		switch m[2] {
+		case "chan receive", "chan send", "select", "semacquire", "sync.Cond.Wait", "sync.Mutex.Lock", "sync.RWMutex.Lock", "sync.RWMutex.RLock", "chan receive (nil chan)", "chan send (nil chan)", "select (no cases)":
+			lines := strings.SplitN(g, "\n", 4)
+			top := ""
+			if len(lines) > 1 {
+				top = lines[1]
+			}
+			out[w] = m[2] + "@" + top
+		}
+	}
+	return out
 }
 
 // StackOf extracts from a full dump the goroutines that mention needle.
